@@ -49,11 +49,13 @@ JudgeIter(B) ==
        <<IF B.mode = "default" THEN "P:C07:format-dispatch" ELSE IF B.sp # -1 THEN "P:C07:shortcut-invariant" ELSE name, okY>>,
        <<"P:C07:nonref-pure", B.post = B.pre>> >>)
 
+Visited(cs, take) == IF take >= 0 /\ take < Len(cs) THEN SubSeq(cs, 1, take) ELSE cs      \* a traversal abandoned after `take` yields visited only those coordinates
 JudgeIterRef(B) ==
   LET e == E(B)  d == B.dflt
-      cs == CASE B.mode = "shaperef" -> FillCoords(0, B.shape, 1)
+      cs0 == CASE B.mode = "shaperef" -> FillCoords(0, B.shape, 1)
               [] B.mode = "rangeshaperef" -> FillCoords(B.lo, B.hi, B.step)
               [] OTHER -> FillCoords(ActLo(B), ActHi(B), 1)
+      cs == Visited(cs0, B.take)
       e1 == B.post.root.e
       okp == NoForeign(B.post.root) /\ Sorted(e1)
   IN Fails(<<
@@ -65,9 +67,10 @@ JudgeIterRef(B) ==
 
 \* dense co-iteration of several fibers over one range: zip of the single-fiber fills
 JudgeCoiter(B) ==
-  LET cs == CASE B.mode \in {"shape", "shaperef"} -> FillCoords(0, B.shape, 1)
+  LET cs0 == CASE B.mode \in {"shape", "shaperef"} -> FillCoords(0, B.shape, 1)
               [] B.mode \in {"rangeshape", "rangeshaperef"} -> FillCoords(B.lo, B.hi, B.step)
               [] OTHER -> FillCoords(ActLo(B), ActHi(B), 1)
+      cs == Visited(cs0, B.take)
       n == Len(B.pres)
       isref == B.mode \in {"shaperef", "rangeshaperef", "activeshaperef"}
   IN Fails(<<
